@@ -337,6 +337,76 @@ theorem failing_call_flush_recognised :
     VgiVerif.Gen.LogDispatch.httpProducerKeepsLogs = true ∧ VgiVerif.Gen.LogDispatch.httpExchangeKeepsLogs = true ∧
     VgiVerif.Gen.LogDispatch.httpInitKeepsLogs = true := by decide
 
+/-! ### tie to the Engine (after the Engine's server step functions were updated to the repaired code): the private
+copies of Model/C08.lean ARE the Engine's functions, so every theorem above is also a theorem about `Engine.Pipe` /
+`Engine.Http` -/
+
+theorem processStep_eq_engine : processStep = Engine.processStep := by
+  funext s; unfold processStep Engine.processStep; cases s.act <;> rfl
+
+theorem processExchangeStep_eq_engine : processExchangeStep = Engine.processExchangeStep := by
+  funext s; unfold processExchangeStep Engine.processExchangeStep; rw [processStep_eq_engine]; cases s.act <;> rfl
+
+theorem pipeR_iterate_eq_engine (carry : List Item) (steps : List Step) :
+    PipeR.iterate carry steps = Pipe.iterate carry steps := by
+  induction steps generalizing carry with
+  | nil => rfl
+  | cons s r ih =>
+    simp only [PipeR.iterate, Pipe.iterate, processStep_eq_engine]
+    cases Engine.processStep s with
+    | cont items =>
+      simp only
+      rcases h : readUntilData (carry ++ items) with ⟨evs, e⟩
+      cases e <;> simp [ih]
+    | done items => rfl
+    | fail items => rfl
+
+theorem pipeR_exchangeAll_eq_engine (carry : List Item) (steps : List Step) :
+    PipeR.exchangeAll carry steps = Pipe.exchangeAll carry steps := by
+  induction steps generalizing carry with
+  | nil => rfl
+  | cons s r ih =>
+    have h1 : PipeR.exchangeOne carry s = Pipe.exchangeOne carry s := by
+      simp only [PipeR.exchangeOne, Pipe.exchangeOne, processExchangeStep_eq_engine]
+      cases Engine.processExchangeStep s <;> rfl
+    simp only [PipeR.exchangeAll, Pipe.exchangeAll, h1]
+    rcases Pipe.exchangeOne carry s with ⟨evs, o⟩
+    cases o <;> simp [ih]
+
+theorem httpR_turn_eq_engine (brk : Nat → Bool) (pos : Nat) (steps : List Step) :
+    HttpR.turn brk pos steps = Http.turn brk pos steps := by
+  induction steps generalizing pos with
+  | nil => rfl
+  | cons s r ih =>
+    simp only [HttpR.turn, Http.turn, processStep_eq_engine]
+    cases Engine.processStep s <;> simp [ih]
+
+theorem httpR_iterate_eq_engine (brk : Nat → Bool) (il : List Log) (steps : List Step) :
+    HttpR.iterate brk il steps = Http.iterate brk il steps := by
+  have hs : HttpR.serveContinuation brk steps = Http.serveContinuation brk steps := by
+    funext pos; simp [HttpR.serveContinuation, Http.serveContinuation, httpR_turn_eq_engine]
+  simp [HttpR.iterate, Http.iterate, HttpR.initBody, Http.initBody, httpR_turn_eq_engine, hs]
+
+theorem httpR_exchangeAll_eq_engine (steps : List Step) : HttpR.exchangeAll steps = Http.exchangeAll steps := by
+  induction steps with
+  | nil => rfl
+  | cons s r ih =>
+    have h1 : HttpR.exchangeOne s = Http.exchangeOne s := by
+      simp only [HttpR.exchangeOne, Http.exchangeOne, processExchangeStep_eq_engine]
+      cases Engine.processExchangeStep s <;> rfl
+    simp only [HttpR.exchangeAll, Http.exchangeAll, h1]
+    rcases Http.exchangeOne s with ⟨evs, o⟩
+    cases o <;> simp [ih]
+
+/-- C08 on the Engine's own transport models -/
+theorem C08_engine (brk : Nat → Bool) (il : List Log) (steps : List Step) :
+    Delivered (Spec.lg il ++ emittedProducer steps) (Pipe.iterate (logItems il) steps) ∧
+    Delivered (Spec.lg il ++ emittedProducer steps) (Http.iterate brk il steps) ∧
+    Delivered (Spec.lg il ++ emittedExchange steps) (Pipe.exchangeAll (logItems il) steps) ∧
+    Delivered (emittedExchange steps) (Http.exchangeAll steps) := by
+  rw [← pipeR_iterate_eq_engine, ← httpR_iterate_eq_engine, ← pipeR_exchangeAll_eq_engine, ← httpR_exchangeAll_eq_engine]
+  exact ⟨C08_pipe_producer il steps, C08_http_producer brk il steps, C08_pipe_exchange il steps, C08_http_exchange steps⟩
+
 /-- the spec's emitted sequence is the Engine's `Sem.producer` with `keepFailLogs = true` (the property as stated) -/
 theorem emittedProducer_eq_sem (steps : List Step) : emittedProducer steps = Sem.producer true steps := by
   induction steps with
